@@ -91,6 +91,11 @@ try:
 except Exception:
     pass
 T.update(T3)
+try:
+    from seed_meta4 import T4
+    T.update(T4)
+except Exception:
+    pass
 for name, (prop, needs, det, first, added) in T.items():
     d = os.path.join(ROOT, name)
     if not os.path.isdir(d):
